@@ -67,10 +67,13 @@ def run(pid, tier, seed, replay=None):
             raise vlib.Infra("MC_Nnls failed: %s\n%s" % (res.violated, res.out[-1500:]))
         ck.add_tlc("MC_Nnls", res)
         rnd = random.Random(seed)
-        if tier == "quick":
-            small = [s for s in systems if s["n"] <= 2]
-            big = [s for s in systems if s["n"] == 3]
-            systems = small + rnd.sample(big, 4000)
+        # all systems of size 1..2 and a seeded sample of size 3 (every system is run through five solver variants under several
+        # rescalings and judged by a single-worker trace specification: 4000 / 40000 keep that inside minutes / an hour)
+        small = [s for s in systems if s["n"] <= 2]
+        big = [s for s in systems if s["n"] == 3]
+        nbig = 4000 if tier == "quick" else 40000
+        ck.cov["systems_enumerated_by_tlc"] = len(systems)
+        systems = small + (rnd.sample(big, nbig) if len(big) > nbig else big)
         sf = os.path.join(wd, "systems.ndjson")
         vlib.write_ndjson(sf, systems)
         ck.sample(systems[len(systems) // 2])
@@ -111,7 +114,7 @@ def run(pid, tier, seed, replay=None):
         ck.cov["traces_validated_against_impl"] = len(rows_all)
         ck.cov["evaluations"] = len(rows_all)
         ck.cov["distinct_nontrivial"] = len(systems) + (300 if tier == "quick" else 6000)
-        ck.cov["rule"] = "all TLC-enumerated integer SPD systems of size 1..2 and a seeded sample (quick) / all (thorough) of size 3, each also under power-of-two diagonal rescaling; random systems n = 2..12 (dense, degenerate, badly scaled; active-set reference) and sparse n = 20..200 (KKT residual)"
+        ck.cov["rule"] = "all TLC-enumerated integer SPD systems of size 1..2 and a seeded sample of size 3 (4000 quick / 40000 thorough), each also under power-of-two diagonal rescaling; random systems n = 2..12 (dense, degenerate, badly scaled; active-set reference) and sparse n = 20..200 (KKT residual)"
         return ck.finish(exhaustive=False)
     finally:
         if not os.environ.get("VERIF_KEEP"):
